@@ -72,7 +72,7 @@ def new_op(rng, kind, idn=0, small=False, **over):
             if rng.random() < 0.5:
                 a, b = b, a
         op["fs_in"], op["fs_out"] = a, b
-        op["chunk"] = rng.choice([1, 2, 7, 16, 64, 100, 256, 480, 1024, 2048] if not small else [1, 2, 3, 5, 8, 12])
+        op["chunk"] = rng.choice([1, 2, 7, 16, 64, 100, 256, 480, 1024, 2048, 4096, 5000] if not small else [1, 2, 3, 5, 8, 12])
         op["sub"] = rng.choice([1, 1, 2, 3, 4])
         if op["sub"] > op["chunk"]:
             op["sub"] = 1
@@ -80,7 +80,8 @@ def new_op(rng, kind, idn=0, small=False, **over):
         # FFT sizes are multiples of fs/gcd: keep them affordable
         from math import gcd
         g = gcd(a, b)
-        while max(a, b) // g > 2000:
+        cap = 6000 if rng.random() < 0.15 else 2000
+        while max(a, b) // g > cap:
             a, b = rng.choice(RATES), rng.choice(RATES)
             g = gcd(a, b)
         op["fs_in"], op["fs_out"] = a, b
@@ -324,8 +325,9 @@ def impulse_history(rng, kind):
         n = new_op(rng, kind, fs_in=a, fs_out=b, signal="impulse", T=rng.choice([32, 64]), ch=1)
         g = gcd(a, b)
         ra, rb = a // g, b // g
-        n["chunk"] = rng.choice([64, 128, 256, 300, 512])
-        n["sub"] = rng.choice([1, 2])
+        # also blocks of several thousand frames (seeded change C14c: behaviour that depends on the block size)
+        n["chunk"] = rng.choice([64, 128, 256, 300, 512, 512, 2500, 4096, 6000])
+        n["sub"] = rng.choice([1, 1, 2])
         blk = -(-(n["chunk"] // n["sub"]) // ra) * ra if kind != "FftFixedOut" else -(-(n["chunk"] // n["sub"]) // rb) * ra
         pos = rng.randrange(blk // 2, 3 * blk)
         n["imp"] = [pos]
